@@ -120,6 +120,8 @@ def val_tok(v):
     if isinstance(v, int):
         return 'i%d' % v
     if isinstance(v, float):
+        if v != v or v in (float('inf'), float('-inf')):
+            return 'x' + repr(v)
         return 'f%d' % round(v * 100)
     if isinstance(v, str):
         return 's' + ','.join(str(ord(c)) for c in v)
